@@ -204,9 +204,13 @@ func verifSameNode(a, b interface{}) bool { return false }
 func verifNative() bool                  { return true }
 func verifIsOpaque(s string) bool        { return false }
 func verifMentions(msg, s string) bool   { return strings.Contains(msg, strconv.Quote(s)) }
+// verifMarshalOf: s is JSON text that decodes back to v.
 func verifMarshalOf(s string, v interface{}) bool {
-	b, err := json.Marshal(v)
-	return err == nil && string(b) == s
+	var out interface{}
+	if err := json.Unmarshal([]byte(s), &out); err != nil {
+		return false
+	}
+	return reflect.DeepEqual(out, v)
 }
 func verifCatch(f func()) (panicked bool, msg string) {
 	defer func() {
